@@ -450,7 +450,8 @@ struct World : IWorld {
           bool ok = false;
           MPtr cur = tmp;
           MPtr nv(cur.get(), cur.mark() ^ 1u);
-          if (tmp.get()) ok = cells[a].compare_exchange_strong(cur, nv, std::memory_order_acq_rel, std::memory_order_relaxed);
+          // a null pointer with a mark is a legal cell value as well: exercised by every third remark of an empty cell
+          if (tmp.get() || (t.nmark++ % 3) == 0) ok = cells[a].compare_exchange_strong(cur, nv, std::memory_order_acq_rel, std::memory_order_relaxed);
           op_end(ok, val_of(nv), val_of(MPtr(tmp)));
           break;
         }
